@@ -93,6 +93,9 @@ func SearchParams(kind string, level int) []map[string]int {
 		if level == 0 {
 			ils, hbs = []int{2, 3, 8}, []int{1, 3}
 		}
+		if level == 2 {
+			ils, hbs = []int{2, 3, 4}, []int{1, 2}
+		}
 		for _, il := range ils {
 			for _, hb := range hbs {
 				out = append(out, map[string]int{"InputLen": il, "HashBits": hb})
@@ -103,6 +106,9 @@ func SearchParams(kind string, level int) []map[string]int {
 		hbs := []int{1, 3}
 		if level == 0 {
 			pairs = [][2]int{{2, 3}, {3, 6}, {4, 8}}
+		}
+		if level == 2 {
+			pairs, hbs = [][2]int{{2, 3}, {2, 6}, {3, 4}}, []int{1, 2}
 		}
 		for _, p := range pairs {
 			for _, h1 := range hbs {
@@ -120,6 +126,9 @@ func SearchParams(kind string, level int) []map[string]int {
 		bss := []int{1, 2, 3}
 		if level == 0 {
 			ils, bss = []int{2, 3}, []int{1, 2}
+		}
+		if level == 2 {
+			ils, hbs, bss = []int{2, 3}, []int{1, 2}, []int{1, 2}
 		}
 		for _, il := range ils {
 			for _, hb := range hbs {
